@@ -676,13 +676,10 @@ impl BinArchive {
         if address >= self.data.len() {
             return Ok(());
         }
-        let range = address..self.data.len();
-        self.data.drain(range.clone());
-        for i in range.step_by(4) {
-            self.text.remove(&i);
-            self.labels.remove(&i);
-            self.pointers.remove(&i);
-        }
+        self.data.truncate(address);
+        self.text.retain(|addr, _| *addr < address);
+        self.labels.retain(|addr, _| *addr < address);
+        self.pointers.retain(|addr, _| *addr < address);
         self.cstrings = adjust_cstrings(&self.cstrings, |addr| Some(addr).filter(|a| *a < address));
         Ok(())
     }
